@@ -166,7 +166,7 @@ def _run(pid, cfg, tier, seed, repo, work, t0):
         if asm is None:
             continue
         for (fn, label, props, kind, text) in asm.obligations():
-            if pid in props:
+            if pid in props or (kind == "invariant" and pid in asm.fns.get(fn, {}).get("props", ())):
                 obligations.append(dict(unit=u["name"], function=fn, obligation=label, kind=kind, clause=text, backend="verus/z3"))
         for fn, meta in asm.fns.items():
             if pid in meta["props"]:
